@@ -7,6 +7,8 @@
 
 #include "vrt_main.hpp"
 
+#include <malloc.h>
+
 namespace {
 
 // ---- allocation balance (global operator new/delete replaced below): only blocks allocated while the
@@ -92,6 +94,18 @@ std::int64_t HookPick(const std::uint64_t* ids, std::size_t n, std::int64_t self
 // released one (locations are named by address)
 std::vector<void*> gQuarantine;
 bool gInExecution = false;
+// extents of the blocks released during the current execution: an instrumented object that is used or destroyed
+// inside one of them was touched after its storage was released (the blocks are also filled with 0xDD)
+std::vector<std::pair<std::uintptr_t, std::uintptr_t>> gFreed;
+bool InFreed(const void* p) {
+  const auto a = reinterpret_cast<std::uintptr_t>(p);
+  for (auto& [b, e] : gFreed) {
+    if (b <= a && a < e) {
+      return true;
+    }
+  }
+  return false;
+}
 
 // ---- instance tracking
 struct Registry {
@@ -105,18 +119,25 @@ struct Registry {
     if (!live.insert(p).second) {
       errors.push_back("object constructed over a live object");
     }
+    if (InFreed(p)) {
+      errors.push_back("object constructed in storage that was already released");
+    }
   }
   void Dtor(const void* p) {
     NoCount nc;
     ++destroyed;
     if (live.erase(p) == 0) {
       errors.push_back("destructor ran on an object that is not alive (double destruction)");
+    } else if (InFreed(p)) {
+      errors.push_back("destructor ran on an object whose storage was already released (use after free)");
     }
   }
   void Use(const void* p, const char* what) {
     NoCount nc;
     if (live.count(p) == 0) {
       errors.push_back(std::string(what) + " on an object that is not alive");
+    } else if (InFreed(p)) {
+      errors.push_back(std::string(what) + " on an object whose storage was already released (use after free)");
     }
   }
   void Reset() {
@@ -289,6 +310,37 @@ struct FnResultUS : Fn {
       throw 7;
     }
     return yaclib::MakeFuture<Val, Err>(Val{r ? r.Value().x + 1 : -1});
+  }
+};
+// unwrapping functors that hand out a PENDING inner future (fulfilled by a third fiber)
+struct FnU : Fn {
+  yaclib::Future<Val, Err> inner;
+  FnU(int i, Kind k, yaclib::Future<Val, Err> in) : Fn{i, k}, inner{std::move(in)} {
+  }
+  FnU(FnU&&) noexcept = default;
+};
+struct FnValueUP : FnU {
+  using FnU::FnU;
+  yaclib::Future<Val, Err> operator()(Val&& v) && {
+    gFn.Use(this, "call");
+    Mark("call " + std::to_string(id));
+    (void)v;
+    if (kind == Kind::Throws) {
+      throw 7;
+    }
+    return std::move(inner);
+  }
+};
+struct FnResultUP : FnU {
+  using FnU::FnU;
+  yaclib::Future<Val, Err> operator()(R&& r) && {
+    gFn.Use(this, "call");
+    Mark("call " + std::to_string(id));
+    (void)r;
+    if (kind == Kind::Throws) {
+      throw 7;
+    }
+    return std::move(inner);
   }
 };
 struct FnFinal : Fn {  // for Detach*: returns void
@@ -464,6 +516,7 @@ void RunScenario(const Params& p) {
     std::free(q);
   }
   gQuarantine.clear();
+  gFreed.clear();
   // ---- oracle
   for (auto& e : gFn.errors) {
     vrt::Fail("functor: " + e);
@@ -563,6 +616,7 @@ void RunShared(const ParamsB& p) {
     std::free(q);
   }
   gQuarantine.clear();
+  gFreed.clear();
   if (p.src == 0 && seen_again != 1) {
     vrt::Fail("a surviving SharedFuture read " + std::to_string(seen_again) + " but 1 was set");
   }
@@ -572,6 +626,117 @@ void RunShared(const ParamsB& p) {
   for (auto& e : gVal.errors) {
     vrt::Fail("value: " + e);
   }
+  if (!gFn.live.empty()) {
+    vrt::Fail(std::to_string(gFn.live.size()) + " functor instance(s) never destroyed");
+  }
+  if (!gVal.live.empty()) {
+    vrt::Fail(std::to_string(gVal.live.size()) + " value instance(s) never destroyed");
+  }
+  if (gLiveBlocks != 0) {
+    vrt::Fail("allocation balance at quiescence is " + std::to_string(gLiveBlocks) + " blocks");
+  }
+}
+
+// ---- family C: a unique pipeline with one unwrapping step whose callback returns a future that is still pending;
+// a third fiber fulfils (or drops) the inner promise, so the step's core is completed, consumed and released by other
+// fibers while the fiber that called the functor may still be inside the step
+struct ParamsC {
+  int src;    // outer source: 0 value, 1 error
+  int mode;   // 0 ThenInline, 1 Then(accepting executor), 2 Then(rejecting executor)
+  int fk;     // 0 value->Future, 1 Result->Future
+  int thr;    // functor throws
+  int inner;  // inner source: 0 value, 1 error, 2 promise dropped
+  int fin;    // 0 Get&&, 1 drop the future, 2 Detach()
+};
+
+void RunUnwrap(const ParamsC& p) {
+  gFn.Reset();
+  gVal.Reset();
+  vrt::g.trace_unknown = false;
+  CountingInline alive{true};
+  CountingInline stopped{false};
+  std::memset(gTable, 0, sizeof(gTable));
+  gLiveBlocks = 0;
+  gInExecution = true;
+  {
+    auto [f, pr] = [] {
+      Count cnt;
+      return yaclib::MakeContract<Val, Err>();
+    }();
+    auto [fi, pi] = [] {
+      Count cnt;
+      return yaclib::MakeContract<Val, Err>();
+    }();
+    yaclib_std::thread tp([&, pr = std::move(pr)]() mutable {
+      vrt::NameThread("P");
+      Count cnt;
+      if (p.src == 0) {
+        std::move(pr).Set(Val{1});
+      } else {
+        std::move(pr).Set(Err{5});
+      }
+    });
+    yaclib_std::thread tq([&, pi = std::move(pi)]() mutable {
+      vrt::NameThread("Q");
+      Count cnt;
+      switch (p.inner) {
+        case 0:
+          std::move(pi).Set(Val{10});
+          break;
+        case 1:
+          std::move(pi).Set(Err{6});
+          break;
+        default: {
+          auto q = std::move(pi);
+        }
+      }
+    });
+    yaclib_std::thread tc([&, f = std::move(f), fi = std::move(fi)]() mutable {
+      vrt::NameThread("C");
+      const Kind k = p.thr ? Kind::Throws : (p.fk == 0 ? Kind::TakesValue : Kind::TakesResult);
+      auto& ex = p.mode == 1 ? alive : stopped;
+      auto finish = [&](auto f2) {
+        Count cnt;
+        switch (p.fin) {
+          case 0: {
+            R r = std::move(f2).Get();
+            (void)r;
+            break;
+          }
+          case 1: {
+            auto g = std::move(f2);
+            break;
+          }
+          default:
+            std::move(f2).Detach();
+            break;
+        }
+      };
+      Count cnt;
+      if (p.fk == 0) {
+        p.mode == 0 ? finish(std::move(f).ThenInline(FnValueUP{1, k, std::move(fi)}))
+                    : finish(std::move(f).Then(ex, FnValueUP{1, k, std::move(fi)}).On(nullptr));
+      } else {
+        p.mode == 0 ? finish(std::move(f).ThenInline(FnResultUP{1, k, std::move(fi)}))
+                    : finish(std::move(f).Then(ex, FnResultUP{1, k, std::move(fi)}).On(nullptr));
+      }
+    });
+    tp.join();
+    tq.join();
+    tc.join();
+  }
+  gInExecution = false;
+  for (auto& e : gFn.errors) {
+    vrt::Fail("functor: " + e);
+  }
+  for (auto& e : gVal.errors) {
+    vrt::Fail("value: " + e);
+  }
+  for (void* q : gQuarantine) {
+    std::free(q);
+  }
+  gQuarantine.clear();
+  gFreed.clear();
   if (!gFn.live.empty()) {
     vrt::Fail(std::to_string(gFn.live.size()) + " functor instance(s) never destroyed");
   }
@@ -600,7 +765,10 @@ static void Release(void* p) noexcept {
     return;
   }
   TableErase(p);
-  if (gInExecution && gQuarantine.size() < gQuarantine.capacity()) {
+  if (gInExecution && gQuarantine.size() < gQuarantine.capacity() && gFreed.size() < gFreed.capacity()) {
+    const std::size_t n = malloc_usable_size(p);
+    gFreed.emplace_back(reinterpret_cast<std::uintptr_t>(p), reinterpret_cast<std::uintptr_t>(p) + n);
+    std::memset(p, 0xDD, n);
     gQuarantine.push_back(p);
   } else {
     std::free(p);
@@ -624,6 +792,7 @@ int main(int argc, char** argv) {
   yaclib::verif::gHooks.choose = HookChoose;
   yaclib::verif::gHooks.pick_fiber = HookPick;
   gQuarantine.reserve(1 << 16);
+  gFreed.reserve(1 << 16);
   const int max_len = std::atoi(m.Param("maxlen", "2").c_str());
   {
     // warm-up: lazily initialised library/runtime statics allocate on first use; not part of any pipeline
@@ -671,6 +840,24 @@ int main(int argc, char** argv) {
                      [p] {
                        RunShared(p);
                      });
+        }
+      }
+    }
+  }
+  for (int src = 0; src < 2; ++src) {
+    for (int mode = 0; mode < 3; ++mode) {
+      for (int fk = 0; fk < 2; ++fk) {
+        for (int thr = 0; thr < 2; ++thr) {
+          for (int inner = 0; inner < 3; ++inner) {
+            for (int fin = 0; fin < 3; ++fin) {
+              ParamsC p{src, mode, fk, thr, inner, fin};
+              m.Scenario("unwrap/s" + std::to_string(src) + "m" + std::to_string(mode) + "k" + std::to_string(fk) + "t" +
+                           std::to_string(thr) + "i" + std::to_string(inner) + "f" + std::to_string(fin),
+                         [p] {
+                           RunUnwrap(p);
+                         });
+            }
+          }
         }
       }
     }
